@@ -124,6 +124,11 @@ def c08(op, obs, before, after):
             v.append('inventory %r refers to a missing provider' % (i,))
         if i[1] not in rc_ids:
             v.append('inventory %r refers to a missing resource class' % (i,))
+    for r in d[T_RPS]:
+        if r[4] not in rps:
+            v.append('provider %r: its root pointer %r refers to no provider' % (r[0], r[4]))
+        if r[3] != -1 and r[3] not in rps:
+            v.append('provider %r: its parent pointer %r refers to no provider' % (r[0], r[3]))
     for x in d[T_RPAGG]:
         if x[0] not in rps or x[1] not in aggs:
             v.append('aggregate association %r dangles' % (x,))
